@@ -286,6 +286,8 @@ inductive Op
   | setPre (x : List Rat)
   | from44 (A : Aff) (e : F44Ext)
   | copy
+  | inv (x : Ext) (e : F44Ext)    -- `o = o.inv()`: `x` leaves of `as_affine()`, `e` leaves of `from_matrix44(inverse)`
+  | pickle                        -- `o = pickle.loads(pickle.dumps(o))`
 deriving Repr
 
 def Obj.step (o : Obj) : Op → Except String Obj
@@ -297,6 +299,11 @@ def Obj.step (o : Obj) : Op → Except String Obj
   | .from44 A e =>      -- a new double array replaces `_vec12`
       let r := fromMatrix44 o.cls o.direct A e; pure { o with v := r.1, direct := r.2, ints := false }
   | .copy => pure o          -- `copy()` builds `cls()` and copies `_direct`, `_precond`, `_vec12`
+  | .inv x e =>       -- a fresh `cls()` (flag set) with the preconditioner copied takes `from_matrix44(spl.inv(as_affine()))`
+      match (asAffine o.v o.direct x).inv with
+      | none => .error "error:linalgError"
+      | some B => let r := fromMatrix44 o.cls true B e; pure { o with v := r.1, direct := r.2, ints := false }
+  | .pickle => pure o        -- the instance dictionary (`_direct`, `_precond`, `_vec12`) is what is pickled
 
 /-- a refused operation leaves the object unchanged and the history goes on -/
 def Obj.run (o : Obj) : List Op → List String × Obj
@@ -433,6 +440,8 @@ def pOp (c : Cls) : P Op := do
   | "Q" => do let p ← pList pRat; pure (.setPre p)
   | "F" => do let a ← pAff; let e ← pF44 c; pure (.from44 a e)
   | "C" => pure .copy
+  | "I" => do let x ← pExt; let e ← pF44 c; pure (.inv x e)
+  | "K" => pure .pickle
   | _ => failure
 
 def pOpt {α} (p : P α) : P (Option α) := do
